@@ -60,7 +60,7 @@ POOL = [
 ]
 
 SEL_OBJECTS = ['a', 1, (1, 2), 0.5]
-ROUTES = ['default', 'ctor', 'inst', 'cls', 'update', 'clsupdate', 'deser']
+ROUTES = ['default', 'ctor', 'inst', 'cls', 'update', 'clsupdate', 'deser', 'reconf_cls', 'reconf_inst', 'inherit']
 DESER_TYPES = {'Parameter', 'String', 'Boolean', 'Number', 'Integer', 'Magnitude', 'List', 'Dict', 'Selector', 'ObjectSelector', 'Color'}
 
 
@@ -192,6 +192,23 @@ def materialize(cfg):
     return kw, sc, extra
 
 
+def reconfiguration(pt, cfg):
+    """a change of the constraints after declaration: [(Parameter attribute, new value, spec key, spec value)] or None"""
+    if pt in ('Number', 'Integer'):
+        return [('bounds', (2, 8), 'bounds', (2, 8))]
+    if pt == 'List':
+        it = cfg.get('item_type')
+        new = str if it in ('int', 'int_str') else int
+        return [('item_type', new, '_item_type', new), ('bounds', (0, 2), 'bounds', (0, 2))]
+    if pt == 'String':
+        return [('regex', '^ab', 'regex', '^ab')]
+    if pt == 'ClassSelector':
+        return [('class_', str, '_class', str)]
+    if pt in ('Tuple', 'NumericTuple'):
+        return [('length', 3, 'length', 3)]
+    return None
+
+
 def to_cmp(mid, c):
     if isinstance(c, dt.datetime) and not isinstance(mid, dt.datetime):
         return dt.datetime(mid.year, mid.month, mid.day)
@@ -235,6 +252,10 @@ class C01(Harness):
             for r in ROUTES:
                 if r == 'deser' and cfg['ptype'] not in DESER_TYPES:
                     continue
+                if r in ('reconf_cls', 'reconf_inst') and reconfiguration(cfg['ptype'], cfg) is None:
+                    continue
+                if r == 'inherit' and cfg['ptype'] in ('Parameter', 'Selector', 'ObjectSelector', 'ListSelector', 'Filename', 'ClassSelector'):
+                    continue
                 out.append({'cfg': cfg, 'route': r})
         return out
 
@@ -270,6 +291,14 @@ class C01(Harness):
                 k['objects'] = list(k['objects']) if isinstance(k['objects'], list) else dict(k['objects'])
             return ptype(default=dflt, **k)
 
+        rc = reconfiguration(pt, cfg) if route in ('reconf_cls', 'reconf_inst') else None
+        if rc:
+            sc = dict(sc)
+            for _, _, sk, sv in rc:
+                sc[sk] = sv
+        if route == 'inherit':
+            # a subclass redeclares the Parameter giving only a default: the constraints are inherited, allow_None is not
+            sc = dict(sc, allow_None=False)
         n = 0
         for label, v in values:
             if route == 'deser':
@@ -322,6 +351,24 @@ class C01(Harness):
                         kwargs = X.param.deserialize_parameters(json.dumps({'p': v}))
                         x = X(**kwargs)
                         got_back = x.p
+                    elif route in ('reconf_cls', 'reconf_inst'):
+                        x = X()
+                        target = X.param['p'] if route == 'reconf_cls' else x.param['p']
+                        for attr, val, _, _ in rc:
+                            setattr(target, attr, val)
+                        prev = x.p
+                        try:
+                            x.p = v
+                        finally:
+                            got_back = x.p
+                    elif route == 'inherit':
+                        Y = type('Y', (X,), {'p': ptype(default=default)})
+                        y = Y()
+                        prev = y.p
+                        try:
+                            y.p = v
+                        finally:
+                            got_back = y.p
             except Exception as e:   # noqa
                 exc = e
             accepted = exc is None
@@ -342,7 +389,7 @@ class C01(Harness):
                 same = got_back is v or (route == 'deser' and got_back == v) or (pt == 'Filename' and os.path.basename(str(got_back)) == os.path.basename(str(v)))
                 if not same and not _is_copy_ok(pt, route, got_back, v):
                     vs.append(V('read-back', '%s(%s) accepted %s via route %s but reads back %r' % (pt, _cfgstr(cfg), label, route, got_back), **key))
-            elif route in ('inst', 'cls', 'update', 'clsupdate'):
+            elif route in ('inst', 'cls', 'update', 'clsupdate', 'reconf_cls', 'reconf_inst', 'inherit'):
                 if got_back is not prev and not (pt == 'Filename' and got_back == prev):
                     vs.append(V('rejected-but-changed', '%s(%s) rejected %s via route %s but the value changed from %r to %r' % (
                         pt, _cfgstr(cfg), label, route, prev, got_back), **key))
